@@ -50,7 +50,9 @@ func keyValue(typ string, rank int, long bool) types.Value {
 		return types.NewFloat(float32(1e6) * float32(rank))
 	default:
 		if long {
-			return types.NewVarchar(strings.Repeat("q", 380) + fmt.Sprintf("%03d", rank))
+			// lengths 239 .. 286 bytes, one per rank (the order holds: a digit sorts below 'q'): they straddle the
+			// length at which the key header's low byte wraps (256 - 12)
+			return types.NewVarchar(strings.Repeat("q", 236+rank) + fmt.Sprintf("%03d", rank))
 		}
 		if rank == 0 {
 			return types.NewVarchar("")
